@@ -1,7 +1,8 @@
 (* Wire entry point for C02.  Ops (sub = () | (rows): when present the screen under test is built from
    [rows] with the mappings of the screen built from mk_args, i.e. its mappings are supersets of its rows):
-     (0 mk_args sub k)  -> result (screen file)   k >= 1 save/load cycles; the screen after the last load and
-                                                   the file written by the last save
+     (0 mk_args sub k)  -> result (screen file ctrl arity)   k >= 1 save/load cycles; the screen after the last
+                                                   load (with its control name and arity) and the file written by
+                                                   the last save
      (1 mk_args sub k)  -> result (space sfile)   the same for ExperimentSpace.from_screen(screen)
      (2 mk_args sub)    -> file                   save only (what save_h5 writes), for screens that cannot be loaded *)
 From Coq Require Import ZArith List.
@@ -42,7 +43,7 @@ Definition run_c02 (orc : oracle) (s : sexp) : sexp :=
   | SL [SZ 0; a; sub; k] =>
       match as_mk_args a, as_option (as_listof as_row) sub, as_nat k with
       | Some a, Some sub, Some (S k) =>
-          of_result (fun p => SL [of_screen (fst p); of_file (snd p)])
+          of_result (fun p => SL [of_screen (fst p); of_file (snd p); of_name (s_ctrl (fst p)); of_nat (s_arity (fst p))])
             (dor s0 <- build_subject a sub;
              dor sk <- cycles k s0;
              dor s' <- load (save sk);
